@@ -135,7 +135,7 @@ func Enum08(t *testing.T) {
 	})
 }
 
-var enum11Atoms = []string{"a", "b", "=", "&", "+", "%", "%26", "%3D", "%2B", "%41", " ", "#"}
+var enum11Atoms = []string{"a", "b", "=", "&", "+", "%", "%26", "%3D", "%2B", "%41", " ", "#", "amp;", ";"}
 
 func Enum11(t *testing.T) {
 	runEnum(t, "C11", P11, enum11Atoms, enumLen(4, 6), func(s string) []Case11 {
